@@ -32,6 +32,7 @@ inductive Re where
   | plus (r : Re) (greedy : Bool)
   | opt (r : Re) (greedy : Bool)
   | group (idx : Nat) (r : Re)  -- capturing group number idx (1-based)
+  | wordb                       -- `\b`: word boundary (zero width)
 deriving Repr, Inhabited
 
 /-! ### parser for the Python pattern syntax (subset) -/
@@ -119,6 +120,7 @@ partial def parseAtom (st : PState) : Option (Re × PState) := do
     let (rs, rest') ← parseClassBody (rest.length + 1) rest []
     pure (Re.set { ranges := rs }, { st with rest := rest' })
   | '.' :: rest => pure (Re.any, { st with rest := rest })
+  | '\\' :: 'b' :: rest => pure (Re.wordb, { st with rest := rest })
   | '\\' :: c :: rest =>
     match escapeSet c with
     | some s => pure (Re.set s, { st with rest := rest })
@@ -152,6 +154,10 @@ def m (ctx : Ctx) : Nat → Re → Nat → Caps → (Nat → Caps → Option (Na
       if h : pos < ctx.s.size then (if s.mem ctx.s[pos] then k (pos + 1) caps else none) else none
     | .any =>
       if h : pos < ctx.s.size then (if ctx.dotall || ctx.s[pos] != '\n' then k (pos + 1) caps else none) else none
+    | .wordb =>
+      let isW := fun (i : Nat) => if h : i < ctx.s.size then CSet.mem { ranges := wordRanges } ctx.s[i] else false
+      let before := if pos == 0 then false else isW (pos - 1)
+      if before != isW pos then k pos caps else none
     | .seq a b => m ctx fuel a pos caps (fun p c => m ctx fuel b p c k)
     | .alt a b =>
       match m ctx fuel a pos caps k with
